@@ -74,6 +74,16 @@ func (u *Unit) call(st *State, x *ast.CallExpr) *Val {
 	u.callAsserts(st, x)
 	var recv *Val
 	if recvExpr != nil && fn != nil {
+		if se, ok := ast.Unparen(x.Fun).(*ast.SelectorExpr); ok {
+			if sel, ok := u.info.Selections[se]; ok && sel.Kind() == types.MethodVal && len(sel.Index()) > 1 {
+				// method promoted from an embedded field: the receiver is that embedded object
+				base := u.eval(st, recvExpr)
+				recv = u.selectPath(st, base, sel.Index()[:len(sel.Index())-1], se)
+				recvExpr = nil
+			}
+		}
+	}
+	if recvExpr != nil && fn != nil {
 		if k := kindOf(u.typeOf(recvExpr)); k == kAtomic || namedPath(types.Unalias(u.typeOf(recvExpr))) == "sync/atomic.Bool" {
 			u.inAtomic++
 			recv = u.eval(st, recvExpr)
@@ -81,6 +91,38 @@ func (u *Unit) call(st *State, x *ast.CallExpr) *Val {
 		} else {
 			recv = u.eval(st, recvExpr)
 		}
+	}
+	// pointer-receiver method called on a struct-valued field (x.f.M() with f a struct): the callee gets an
+	// interior pointer. The field's value is copied to that address for the call and copied back afterwards.
+	var syncBack func()
+	_, hasModel := models[func() string {
+		if fn != nil {
+			return fullName(fn)
+		}
+		return ""
+	}()]
+	if fn != nil && !hasModel && recv != nil && recvExpr != nil && kindOf(recv.T) == kStruct {
+		if sig := fn.Type().(*types.Signature); sig.Recv() != nil {
+			if _, ptrRecv := types.Unalias(sig.Recv().Type()).(*types.Pointer); ptrRecv {
+				if se, ok := ast.Unparen(recvExpr).(*ast.SelectorExpr); ok {
+					pt := types.NewPointer(recv.T)
+					inner := u.d.fun("interior!"+typeKey(recv.T), []string{SInt}, SInt)
+					baseV := u.eval(st, se.X)
+					ref := app(inner, u.scalar(st, baseV))
+					// interior addresses live below zero: they are never confused with allocated objects and are
+					// outside the caller-visible frame
+					st.assumeFact(app("<", ref, "0"))
+					u.storeStruct(st, ref, pt, recv)
+					recv = &Val{T: pt, S: ref}
+					lhs := recvExpr
+					syncBack = func() { u.assign(st, lhs, u.loadStruct(st, ref, pt)) }
+					u.trusted["interior pointers to struct-valued fields are modelled by copy-in/copy-out around the call"] = true
+				}
+			}
+		}
+	}
+	if syncBack != nil {
+		defer syncBack()
 	}
 	if fn != nil {
 		name := fullName(fn)
@@ -230,7 +272,7 @@ var purePrefixes = []string{
 	"(error).", "net/http.StatusText", "net/http.NewRequestWithContext", "net/http.NewRequest", "(io.Closer).Close", "(io.ReadCloser).Close", "(*strings.Builder).", "regexp.", "(*regexp.Regexp).", "os.Getenv", "encoding/json.Marshal", "encoding/json.Valid",
 	"(*github.com/thushan/olla/internal/adapter/stats.", "github.com/thushan/olla/internal/util.", "github.com/thushan/olla/internal/version.", "(reflect.", "reflect.",
 	"(*github.com/json-iterator/go.", "github.com/json-iterator/go.", "github.com/tidwall/gjson.", "(github.com/tidwall/gjson.Result).",
-	"(*sync.WaitGroup).", "(*sync.Pool).", "runtime.", "(*time.Timer).", "(*time.Ticker).", "io.", "(*bytes.Buffer).", "(*bytes.Reader).",
+	"(*sync.WaitGroup).", "(*sync.Pool).", "(*net/http.Request).Context", "(*net/http.Request).WithContext", "(*net/http.Request).UserAgent", "github.com/thushan/olla/internal/app/middleware.GetLogger", "github.com/thushan/olla/internal/app/middleware.GetRequestID", "github.com/thushan/olla/internal/app/middleware.FormatBytes", "(*github.com/thushan/olla/pkg/pool.Pool).", "runtime.", "(*time.Timer).", "(*time.Ticker).", "io.", "(*bytes.Buffer).", "(*bytes.Reader).",
 }
 
 func (u *Unit) isPure(fn *types.Func) bool {
@@ -849,7 +891,22 @@ func (u *Unit) resolveModifies(st *State, ct *Contract, env *SpecEnv) []modItem 
 				}
 				q := false
 				x := u.specExpr(st, c.Args[1], env, &q)
-				out = append(out, modItem{heap: "G!" + e.Name, sort: sortOf(u.resolveType(u.eng.pkgOr(gf.Pkg, env.pkg), gf.Type)), ref: u.scalar(st, x)})
+				gt := u.resolveType(u.eng.pkgOr(gf.Pkg, env.pkg), gf.Type)
+				if mapContents {
+					// ghost(x).f[all]: the contents of the map stored in the ghost field
+					st.noFacts++
+					h := u.heapGet(st, "G!"+e.Name, sortOf(gt))
+					st.noFacts--
+					mref := app("select", h, u.scalar(st, x))
+					if _, ok := types.Unalias(gt).Underlying().(*types.Map); ok {
+						dom, val, ks, vs := u.mapNames(types.Unalias(gt).Underlying())
+						out = append(out, modItem{heap: dom, sort: arrSort(ks, SBool), ref: mref}, modItem{heap: val, sort: arrSort(ks, vs), ref: mref})
+					} else {
+						u.eng.specError("%s: modifies %s: ghost field is not a map", env.what, m)
+					}
+					continue
+				}
+				out = append(out, modItem{heap: "G!" + e.Name, sort: sortOf(gt), ref: u.scalar(st, x)})
 				continue
 			}
 			// pkg.Type.field (whole array)
